@@ -10,7 +10,8 @@ ID = "C11"
 RULE = ("Two or three single-sample phased VCFs over a common variant list (1-2 chromosomes, 3-14 variants each, some "
         "variants absent or homozygous in a file), random phase-set structure per file (so intersection blocks of "
         "length 1, 2, 3, ... arise), ploidy 2-4, PS or HP encoding per file, a share of multi-allelic heterozygous sites, "
-        "a share of identical files. Oracle: brute-force definitions per intersection block (orientation sequence for "
+        "a share of identical files, a sixth of the biallelic records insertions with --only-snvs in a quarter of the cases (such "
+        "records then do not exist for the comparison), different sample names with --ignore-sample-name in a fifth. Oracle: brute-force definitions per intersection block (orientation sequence for "
         "ploidy 2: switches, run-length switch/flip decomposition, Hamming as minimum over the two correspondences; "
         "minimum over permutation sequences for ploidy >= 3), switch positions for the BED file, agreement column of the "
         "longest block, multiway bipartition counts; metamorphic: permuting the haplotype order of any phase set in any "
@@ -40,6 +41,8 @@ def gen_case(draw, ploidy, nfiles, dense=False):
             ref = draw(st.sampled_from(BASES))
             nalts = 2 if draw(st.integers(0, 7)) == 0 else 1
             alts = [b for b in BASES if b != ref][:nalts]
+            if nalts == 1 and draw(st.integers(0, 5)) == 0:
+                alts = [ref + "T"]      # an insertion: ignored altogether under --only-snvs
             variants.append({"pos": pos, "ref": ref, "alts": alts})
         chroms.append({"name": "chr%d" % (ci + 1), "variants": variants})
     # a base phasing per chromosome; other files are noisy copies so that errors are sparse
@@ -105,10 +108,28 @@ def gen_case(draw, ploidy, nfiles, dense=False):
             for sid in sorted({r["set"] for r in rows if r and r["set"] is not None}):
                 if draw(st.booleans()):
                     relabel.append([fi, cname, sid, list(draw(st.permutations(list(range(ploidy)))))])
-    return {"ploidy": ploidy, "chroms": chroms, "files": files, "relabel": relabel}
+    return {"ploidy": ploidy, "chroms": chroms, "files": files, "relabel": relabel, "only_snvs": draw(st.integers(0, 3)) == 0,
+            "ignore_sample_name": draw(st.integers(0, 4)) == 0}
+
+
+def visible_case(case):
+    """what the tool is asked to compare: under --only-snvs the non-SNV records do not exist"""
+    if not case.get("only_snvs"):
+        return case
+    o = dict(case)
+    o["_full"] = case
+    o["files"] = []
+    for f in case["files"]:
+        calls = {}
+        for c in case["chroms"]:
+            calls[c["name"]] = [call if all(len(a) == 1 for a in v["alts"]) and len(v["ref"]) == 1 else None
+                                for v, call in zip(c["variants"], f["calls"][c["name"]])]
+        o["files"].append(dict(f, calls=calls))
+    return o
 
 
 def write_file(case, fi, path, relabel=None):
+    case = case.get("_full", case)
     f = case["files"][fi]
     ploidy = case["ploidy"]
     perm = {}
@@ -122,7 +143,7 @@ def write_file(case, fi, path, relabel=None):
         out.write('##FORMAT=<ID=GT,Number=1,Type=String,Description="gt">\n')
         out.write('##FORMAT=<ID=PS,Number=1,Type=Integer,Description="ps">\n')
         out.write('##FORMAT=<ID=HP,Number=.,Type=String,Description="hp">\n')
-        out.write("#CHROM\tPOS\tID\tREF\tALT\tQUAL\tFILTER\tINFO\tFORMAT\tsample\n")
+        out.write("#CHROM\tPOS\tID\tREF\tALT\tQUAL\tFILTER\tINFO\tFORMAT\t%s\n" % ("sample%d" % fi if case.get("ignore_sample_name") else "sample"))
         for c in case["chroms"]:
             for v, call in zip(c["variants"], f["calls"][c["name"]]):
                 if call is None:
@@ -163,7 +184,8 @@ def run_tool(case, d, tag, relabel=None):
     buf = io.StringIO()
     try:
         with contextlib.redirect_stdout(buf):
-            run_compare(paths, ploidy, tsv_pairwise=out["pair"], **kw)
+            run_compare(paths, ploidy, tsv_pairwise=out["pair"], only_snvs=bool(case.get("only_snvs")),
+                        ignore_sample_name=bool(case.get("ignore_sample_name")), **kw)
     except CommandLineError as e:
         return {"rejected": str(e)}
     res = {}
@@ -227,9 +249,15 @@ class ComparePart:
     def run(self, case, ctx):
         d = ctx.tmp()
         ploidy = case["ploidy"]
+        case = visible_case(case)
         res = run_tool(case, d, "a")
         ctx.label("ploidy-%d" % ploidy)
-        common = [c for c in case["chroms"] if all(any(x is not None for x in f["calls"][c["name"]]) for f in case["files"])]
+        if case.get("only_snvs"):
+            ctx.label("only-snvs")
+        if case.get("ignore_sample_name"):
+            ctx.label("ignore-sample-name")
+        # a chromosome is "in a file" when the file has any record on it, also one that --only-snvs makes the reader skip
+        common = [c for c in case["chroms"] if all(any(x is not None for x in f["calls"][c["name"]]) for f in case.get("_full", case)["files"])]
         if "rejected" in res:
             # documented rejection: no chromosome occurs in all files
             if common:
